@@ -14,7 +14,7 @@ for d in sorted(glob.glob('/verif/seeded/*/')):
     desc = re.sub(r'\s+', ' ', desc)[:170]
     rows.append((os.path.basename(d.rstrip('/')), desc, m['detected']['summary']))
 def rnd(name):
-    return 7 if '-r7-' in name else 6 if '-r6-' in name else 5 if '-r5-' in name else 4 if '-r4-' in name else 3 if '-r3-' in name else 2 if '-r2-' in name else 1
+    return 8 if '-r8-' in name else 7 if '-r7-' in name else 6 if '-r6-' in name else 5 if '-r5-' in name else 4 if '-r4-' in name else 3 if '-r3-' in name else 2 if '-r2-' in name else 1
 stats = {}
 for r in rows:
     k = rnd(r[0])
@@ -45,7 +45,10 @@ restored in all but one branch, a tie broken the wrong way, an over-eager early 
 for a structurally special minority of SMALL inputs; round 7 for two more, given the earlier thirteen, again as realistic
 maintenance commits but excluding every family used before (relations between two arguments, regularity the author
 assumed, order of side effects, arithmetic simplifications, dropped doc-comment promises, zero values, hoisted loop
-invariants). Each change compiles, passes the repository's own
+invariants); round 8 for two more, given the earlier fifteen, starting from the `fix:` commits of section 8 (visible in the
+worktree's git log): regressions NEXT TO a repaired defect - the same root cause for another input, a half-revert, a
+later simplification of the repaired code, the same slip in a sister function the fix did not touch - or, where no fix
+touches the property's code, another maintenance commit. Each change compiles, passes the repository's own
 test-suite and comes with a demonstration test that fails with the change and passes without it; all of that was
 re-confirmed with `tools/eval_mut.sh` (C19-r2-2 by hand under `-race`) before the change was kept under
 `seeded/<property>-<k>/`, `seeded/<property>-r<round>-<k>/` (`patch.diff`, `demo_test.go.txt`,
@@ -56,7 +59,7 @@ git -C /repo checkout -- .`.
 |---|---|---|---|---|
 """ + "".join(f"| {k} | {v[0]} | {v[0]-v[1]-v[2]} | {v[1]} | {v[2]} |\n" for k, v in sorted(stats.items())) + """
 (For round 2 the checks had already been extended after reading the authors' notes, so "on arrival" is generous there;
-for rounds 1, 3, 4, 5, 6 and 7 every change was run first.) After the strengthenings every seeded change is reported by the quick
+for rounds 1, 3, 4, 5, 6, 7 and 8 every change was run first.) After the strengthenings every seeded change is reported by the quick
 tier of some check, except C04-r2-3 (quick: about one seed in four; thorough: always). Changes reported by a different
 check than the one they were written for: C03-r2-1 (C01/C02), C03-r2-2 (C19), C03-r2-3 (C18), C10-r3-2 (C06),
 C19-r3-1 (C13) - each because the behaviour it breaks is that other property's subject. In round 4 four changes to
@@ -70,7 +73,10 @@ changes to `Load` are not claimed: C04-r6-1 only matters for a >= m, outside the
 loading several saves from ONE shared reader, which the property does not promise (and which the unmodified code does not
 deliver either for a reader that is not an io.ByteReader) - asserting it would demand more than the property states.
 Round 7 was the control sample for the strengthenings of rounds 4-6 (same kind of commit as rounds 4 and 5, which had been
-reported on arrival only half of the time): 34 of 40 were reported on arrival.
+reported on arrival only half of the time): 34 of 40 were reported on arrival. Round 8 (regressions next to repaired defects)
+found gaps again, 14 of 40: degenerate predicates on 0..1 vertices, one save position in twelve thousand, graphs with a
+RemoveVertex-then-AddVertex history, results and input buffers the caller overwrites, overlapping Builders, and two changes
+that make IsPlanar allocate without bound, which first ended as INCONCLUSIVE instead of as a verdict.
 
 | seeded change | what it does (from the author's note) | result |
 |---|---|---|
@@ -112,7 +118,12 @@ library through an interface comes in every conforming behaviour of that interfa
 data-with-EOF per call; io.Writer failing with different error values; a caller's own graph.Graph implementation);
 (21) values the library returns or that are derived from shared values are edited by their owner while others still read
 the originals, and own values are edited the moment a call returns - under the race detector this shows library
-goroutines that outlive their call and deep copies that are not deep.
+goroutines that outlive their call and deep copies that are not deep; (22) resource exhaustion caused by the code under
+test must become a verdict: a memory watchdog (live heap above 6 GB on inputs of a few hundred vertices) and per-call
+deadlines for polynomial functions record the case and end the process, otherwise the address-space limit kills it
+without a trace and the run is merely INCONCLUSIVE; (23) 'every position' must mean every position where that is
+affordable: one wrong save position among 12347 is found by checking all of them, not by sampling; (24) degenerate
+members of a quantifier's domain (the empty hereditary class, n = 0 and 1) need explicit generators.
 """
 s = open('/verif/DESIGN.md').read()
 tail = ''
